@@ -175,34 +175,13 @@ def run(ctx):
         return
     for b in (CA, PT, MT):
         ctx.fn(b)
-    sym2variant = {}
+    import infixscan
+    import inline
     try:
-        cps = Walker(CA, max_visits=2, max_paths=400000).paths()
+        sym2variant = infixscan.symbols(CA, inline=inline.helpers(prog), ctx=ctx)
     except Exception as e:
-        cps = []
+        sym2variant = {}
         ctx.ob("R2", "check_arithmetic_infix", False, ctx.where(CA), "cannot enumerate: %s" % e)
-    ctx.stats["paths_walked"] += len(cps)
-    for p in cps:
-        if p.end != "return" or p.ret[0] != "tuple":
-            continue
-        v = p.ret[1][0]
-        if v[0] != "agg" or v[2] == "None":
-            continue
-        idx = strip(p.ret[1][1])
-        at = {}
-        for e in p.events:
-            if e["k"] == "branch" and e["cond"][0] == "binop" and e["cond"][1] == "Eq" and e["value"] is True:
-                a, b = e["cond"][2], e["cond"][3]
-                ch, other = (b, a) if b[0] == "const" and b[1] == "char" else ((a, b) if a[0] == "const" and a[1] == "char" else (None, None))
-                if ch is None:
-                    continue
-                o = strip(other)
-                if o[0] == "call" and o[1].endswith("::index"):
-                    pos = strip(o[2][1])
-                    if pos == idx:
-                        at[0] = chr(ch[3])
-        if 0 in at:
-            sym2variant.setdefault(at[0], set()).add(v[2])
     variant2name = {}
     order_ok = {}
     try:
@@ -241,12 +220,7 @@ def run(ctx):
                "the infix form builds %s(left operand, right operand)" % nm if order_ok.get(nm) else
                "the operands of the infix form are not passed in (left, right) order")
     # make_term's function prefixes
-    prefixes = set()
-    for bb, t in MT.calls():
-        nm = t["callee"].get("resolved") or t["callee"]["path"]
-        if nm.endswith("starts_with"):
-            for a in t["args"]:
-                if a["k"] == "const" and a["repr"].startswith('"'):
-                    prefixes.add(a["repr"].strip('"').rstrip("("))
+    # names make_term treats as built-in functions: string literals `name(` it (or a constant table it reads) holds
+    prefixes = {x.rstrip("(") for x in prog.str_literals(MT) if x.endswith("(") and len(x) > 1 and x[:-1].isidentifier()}
     ctx.ob("R2", "function-names-agree", bool(prefixes) and prefixes <= set(name2eval), ctx.where(MT),
            "make_term recognises %s as functions; unify_sfunction evaluates %s" % (sorted(prefixes), sorted(name2eval)))
